@@ -753,7 +753,7 @@ func c03Oracle(cr *caseRun) [][2]string {
 // srcVarOf: the documented name of the right-hand variable of a method's assignments.
 func srcVarOf(m gen.Method, tg toggles) string {
 	if tg.Reverse {
-		if m.DstName != "" {
+		if m.DstName != "" && m.DstName != "_" {
 			return m.DstName
 		}
 		return "src" // default names are swapped under :reverse: the destination variable is called src
@@ -761,7 +761,7 @@ func srcVarOf(m gen.Method, tg toggles) string {
 	if tg.Recv != "" {
 		return tg.Recv
 	}
-	if m.SrcName != "" {
+	if m.SrcName != "" && m.SrcName != "_" {
 		return m.SrcName
 	}
 	return "src"
